@@ -155,7 +155,7 @@ pub fn check_case(c: &Case) -> CaseResult {
 }
 
 pub fn sweep_cases(args: &Args, ev: &mut Ev) -> Vec<Case> {
-    let ms = crate::props::families::members(&["fixtures", "struct", "funcs", "locals", "names", "customs", "ctrl", "idshift", "reach", "leb"], args, ev);
+    let ms = crate::props::families::members(&["fixtures", "struct", "funcs", "locals", "names", "customs", "ctrl", "idshift", "reach", "leb", "minimal"], args, ev);
     let mut cases = vec![];
     let census = crate::props::census::cases(args, ev);
     let bodies = crate::props::bodies::cases(args, ev);
